@@ -154,6 +154,16 @@ pub fn run(ctx: &Ctx) -> i32 {
             check_case(ctx, st, &cs[i], Settings::new(REP));
         });
     }
+    // prefixes x^i y^j that fold into shared trie states under repetition conversion
+    {
+        let n = if ctx.thorough { 100000 } else { 6000 };
+        par_for(&ctx.run, n, |i, st| {
+            let mut rng = Rng::new(seed, 0x13_0000 + i as u64);
+            let tcs = gen::merged_prefix_family(&mut rng, if i % 2 == 0 { &["a", "b"] } else { &["a", "b", "c"] });
+            st.count("merged_prefix_families");
+            check_case(ctx, st, &tcs, Settings::new(REP | if i % 3 == 0 { CAP | VERB } else { 0 }));
+        });
+    }
     // 3. structured random families over adversarial alphabets x random lattice points
     let n = if ctx.thorough { 400_000 } else { 24_000 };
     let alphabets: Vec<(String, Vec<String>)> = gen::ALPHABETS.iter().map(|a| (a.to_string(), gen::alphabet(a))).collect();
